@@ -29,6 +29,14 @@ CHECKS = {
    text="Fault model: TLC corrupts the result of any one divider call (over/under-allocation) at any reachable state of the bounded configurations and checks the fail-safe invariants; every such behaviour in the transition cover is replayed with the fault injected at that very call of the real code; divider arguments seen by a wrapping divider are decided by TLC (PureContract); the constructor clause by PureUtils on the real New.",
    note="Trusted: TLC, synctest. One fault per behaviour; bounded configurations.",
    technique="TLA+ fault-budget spec + TLC; gated replay with fault injection; TLC validation of recorded divider calls"),
+ "C16": dict(engine="priority-engine", cat="fault_enumeration", design="§5 C16, §4.2, §6 F3/F5",
+   text="Fault model: Stop()/cancel injected at any point. TLC checks (stop or cancel requested) ~> terminated on PrioV1 under scheduler fairness only, with a regression twin (the loop of the pinned tree must show the F3 lasso); on the real v1 priority, simplified priority and join disciplines seeded gated schedules inject Stop/cancel at random steps (handlers silent, consumer not reading, release never sent) and Mon_Prio / the join monitor decide that the call returns by the virtual deadline, nothing is written afterwards, no Handle runs, deliveries are an in-order duplicate-free subsequence; a spinning scheduler is caught by a wall-clock watchdog with a goroutine dump.",
+   note="Trusted: TLC liveness, synctest virtual time, the watchdog's reading of the goroutine dump. Random schedules, not a transition cover, on the v1 code.",
+   technique="TLA+ liveness without environment fairness (TLC) + regression twin; seeded gated schedules on real code judged by TLA+ monitors"),
+ "C17": dict(engine="priority-engine", cat="model_checking", design="§5 C17, §4.2",
+   text="TLC checks capacity, conservation, order and graceful-termination invariants of PrioV1 over all interleavings of add / replace / remove with traffic; on the real code seeded gated schedules issue AddInput/RemoveInput at random scheduler steps and Mon_Prio decides tags, no element taken from a removed or replaced channel after the call returned, capacity and exactly-once across the change, and that GracefulStop still returns.",
+   note="Trusted: TLC, synctest; 'never reads again' is observed through len() of harness-owned channels and parked writers.",
+   technique="TLA+ spec with dynamic inputs + TLC invariants; seeded gated schedules on real code judged by the TLA+ monitor"),
  "C13": dict(engine="pure-engine", cat="model_checking", design="§5 C13, §4.1",
    text="Apalache proves the postcondition for the specification's Recalculate over all 64-bit inputs (with a regression twin for the repaired branch and a vacuity twin); the Go function is bound to it by validating every recorded call - exhaustive small domain by TLC, seeded boundary-directed 64-bit calls by Apalache - against the property's postcondition.",
    note="Trusted: Apalache/Z3, TLC, the transcription RateConv.tla (itself checked for conformance on every recorded call).",
@@ -61,7 +69,7 @@ def main():
                         baseline_off_cmd="python3 /verif/tools/baseline.py /repo", source_commits=hooks, add_only=True),
              engines=[dict(name="pure-engine", path="/verif/lib/pure.py", serves_properties=["C13", "C14", "C18"],
                            kind_free_text="TLA+ specs of the pure functions; TLC/Apalache decide recorded calls of the real functions"),
-                      dict(name="priority-engine", path="/verif/lib/prio.py", serves_properties=["C01", "C02", "C05", "C06", "C07", "C15"],
+                      dict(name="priority-engine", path="/verif/lib/prio.py", serves_properties=["C01", "C02", "C05", "C06", "C07", "C15", "C16", "C17"],
                            kind_free_text="PrioV2/PrioV1 TLA+ specs; TLC model checking; gated replay of transition covers into the real scheduler; TLA+ monitors on recorded traces")],
              checks=checks,
              notes="Exit codes: 0 held, 1 VIOLATION (real-code behaviour contradicts the property), 2 inconclusive (tool/build failure; never a verdict).",
